@@ -94,6 +94,8 @@ type vStoreCfg struct {
 	fk           int
 	// fkToDept: boss references a second store ("vdepts") instead of vemps
 	fkToDept bool
+	// fkKeyed: the fk symbol's name ("bossref") differs from the key it is stored under ("boss")
+	fkKeyed bool
 	// links: emp.depts <-> dept.members (link collection) and
 	// emp.rcdepts <-> dept.rcmembers (ref-counted link collection)
 	links bool
@@ -175,7 +177,11 @@ func verifNewEmpStore(cfg vStoreCfg, dept *vDeptStore) *vEmpStore {
 	}
 	s.symRoles = s.AddSetSymbol(vFRoles, ast.NodeTypeString)
 	s.idxRoles = s.AddSetIndex(s.symRoles)
-	if cfg.fkToDept {
+	if cfg.fkToDept && cfg.fkKeyed {
+		s.symBoss = s.AddFkSymbolWithKey("bossref", vFBoss, dept)
+		dept.symEmps = dept.AddFkSetSymbol(vFEmps, s)
+		s.symReports = dept.symEmps
+	} else if cfg.fkToDept {
 		s.symBoss = s.AddFkSymbol(vFBoss, dept)
 		dept.symEmps = dept.AddFkSetSymbol(vFEmps, s)
 		s.symReports = dept.symEmps
